@@ -539,18 +539,34 @@ func isHTTPFrameWriter(fn *ssa.Function) bool {
 	if fn == nil || fn.Blocks == nil || !core.PkgIs(fn, "httpgrpc") || len(fn.Params) < 3 || core.TypeStr(fn.Params[0].Type()) != "io.Writer" {
 		return false
 	}
+	// the encoding and the write may sit in step helpers of the package (marshalWithSize, writeAndFlush)
 	marshal, write := false, false
-	core.Instrs(fn, func(in ssa.Instruction) {
-		if call, ok := in.(*ssa.Call); ok {
-			ci := core.InfoOf(&call.Call)
-			if ci.Iface && ci.Name == "Marshal" {
-				marshal = true
-			}
-			if ci.Iface && ci.Name == "Write" {
-				write = true
-			}
+	var scan func(f *ssa.Function, depth int)
+	seen := map[*ssa.Function]bool{}
+	scan = func(f *ssa.Function, depth int) {
+		if f == nil || f.Blocks == nil || seen[f] || depth > 2 {
+			return
 		}
-	})
+		seen[f] = true
+		core.Instrs(f, func(in ssa.Instruction) {
+			if call, ok := in.(*ssa.Call); ok {
+				ci := core.InfoOf(&call.Call)
+				if ci.Iface && ci.Name == "Marshal" {
+					marshal = true
+				}
+				if ci.Iface && ci.Name == "Write" {
+					write = true
+				}
+				if ci.Static != nil && core.PkgIs(ci.Static, "httpgrpc") && ci.Static.Signature.Recv() == nil && depth < 2 {
+					// only helpers that are not frame writers in their own right
+					if !(len(ci.Static.Params) >= 3 && core.TypeStr(ci.Static.Params[0].Type()) == "io.Writer") {
+						scan(ci.Static, depth+1)
+					}
+				}
+			}
+		})
+	}
+	scan(fn, 0)
 	return marshal && write
 }
 
